@@ -130,6 +130,24 @@ def r2_callbacks(report, repo, loop):
          if isinstance(n, (ast.Break, ast.Return))]
   report.check(not bad, rule, f.qualname, 'loop-not-left', loop,
                'callbacks loop has no break/return')
+  # registration keeps every callback it is given, in call order
+  reg = repo.func(TD, 'Test.add_output_callbacks')
+  va = reg.node.args.vararg.arg if reg.node.args.vararg else None
+  muts = [c for c in core.calls_in(reg.node)
+          if isinstance(c.func, ast.Attribute) and c.func.attr in core.MUTATORS
+          and ends_with(dotted(c.func.value) or '', 'output_callbacks')]
+  ok = len(muts) == 1 and muts[0].func.attr == 'extend' and \
+      len(muts[0].args) == 1 and dotted(muts[0].args[0]) == va and not any(
+          isinstance(p, (ast.If, ast.For, ast.While, ast.Try))
+          for p in core.parents(muts[0]) if p is not reg.node and any(
+              q is reg.node for q in core.parents(p)))
+  report.check(ok, rule, reg.qualname, 'registers-all', reg.node,
+               'add_output_callbacks extends the registration list with every '
+               'callback given, unconditionally',
+               'add_output_callbacks filters / reorders the callbacks it is '
+               'given (%s): a registered callback is dropped (e.g. '
+               'de-duplication by == drops a distinct equal object) and never '
+               'receives the record' % [norm(m) for m in muts])
   fs = [n for n in walk_no_nested(f.node) if isinstance(n, ast.Assign) and
         any(core.is_name(t, 'final_state') for t in n.targets)]
   report.check(len(fs) == 1 and call_name(fs[0].value) ==
